@@ -138,10 +138,17 @@ def prune(flavour, keep_s=6 * 3600, max_files=1200):
         fs = [os.path.join(d, f) for f in os.listdir(d)]
     except FileNotFoundError:
         return
-    fs.sort(key=lambda f: os.path.getmtime(f), reverse=True)
+    def mt(f):
+        try:
+            return os.path.getmtime(f)
+        except OSError:          # a temporary of a concurrent build vanished
+            return 0
+    fs.sort(key=mt, reverse=True)
     now = time.time()
     for i, f in enumerate(fs):
-        if i >= max_files or (now - os.path.getmtime(f) > keep_s and i > 200):
+        if ".tmp" in os.path.basename(f) and now - mt(f) < 3600:
+            continue
+        if i >= max_files or (now - mt(f) > keep_s and i > 200):
             try:
                 os.remove(f)
             except OSError:
